@@ -182,6 +182,9 @@ func runC07(matchFile, exclFile string, reserved map[string]map[string]bool, b *
 			{"json", func() (restlicodec.Reader, error) {
 				return restlicodec.NewJsonReaderWithExcludedFields([]byte(doc), spec, 0)
 			}},
+			{"json-null-members-first", func() (restlicodec.Reader, error) { // a null member carries no value and does not disturb the paths after it
+				return restlicodec.NewJsonReaderWithExcludedFields([]byte(refJSON(b, row.Json, 6)), spec, 0)
+			}},
 			{"ror2", func() (restlicodec.Reader, error) { return restlicodec.NewRor2ReaderWithExcludedFields(rdoc, spec, 0) }},
 			{"untyped", func() (restlicodec.Reader, error) {
 				return restlicodec.NewInterfaceReaderWithExcludedFields(b.PlainOf(row.Json), spec, 0), nil
